@@ -116,7 +116,7 @@ class Rec:
             with open(ff) as fh:
                 if c in json.load(fh):
                     raise ValueError('boom')
-        out = render(self.spec['kind'], c)
+        out = render(self.spec['kind'], c + self.spec.get('offset', 0))     # offset: a *different* function on the same arguments
         if self.spec.get('as_xr'):
             import xarray as xr, numpy as np
             dims = self.spec['dims']
